@@ -35,7 +35,13 @@ func FactoidToFactoshi(amt string) (uint64, error) {
 
 	dot := regexp.MustCompile(`\.`)
 	pieces := dot.Split(amt, 2)
-	whole, _ := strconv.Atoi(pieces[0])
+	whole, err := strconv.Atoi(pieces[0])
+	if err != nil && pieces[0] != "" {
+		return 0, fmt.Errorf("invalid amount: %v", err)
+	}
+	if uint64(whole) > math.MaxUint64/100000000 {
+		return 0, fmt.Errorf("amount is too large")
+	}
 	total += uint64(whole) * 1e8
 
 	if len(pieces) > 1 {
@@ -48,7 +54,11 @@ func FactoidToFactoshi(amt string) (uint64, error) {
 		as := a.FindStringSubmatch(pieces[1])
 		part, _ := strconv.Atoi(as[0])
 		power := len(as[1]) + len(as[2])
-		total += uint64(part * 1e8 / int(math.Pow10(power)))
+		frac := uint64(part * 1e8 / int(math.Pow10(power)))
+		if total > math.MaxUint64-frac {
+			return 0, fmt.Errorf("amount is too large")
+		}
+		total += frac
 	}
 
 	return total, nil
